@@ -2007,11 +2007,13 @@ func isPlainIdentifier(name string) bool {
 // writeQuotedIdentifier prints identifier in its original quotes; a quote character inside
 // the identifier (the tokenizer un-doubles it) is doubled again
 func writeQuotedIdentifier(buf *TrackedBuffer, quote byte, identifier string) {
+	// a name written as a string (alias 'a', MySQL "a") was read with the backslash escapes of strings
+	stringQuoted := !defaultDialect.QuoteHandler().IsIdentifierQuote(quote)
 	buf.WriteByte(quote)
 	for i := 0; i < len(identifier); i++ {
 		buf.WriteByte(identifier[i])
-		if identifier[i] == quote {
-			buf.WriteByte(quote)
+		if identifier[i] == quote || (stringQuoted && identifier[i] == '\\') {
+			buf.WriteByte(identifier[i])
 		}
 	}
 	buf.WriteByte(quote)
